@@ -24,7 +24,8 @@ import (
 //           up as replica) | failover with the old master down | refresh round |
 //           failover announced by a host-removal notice after the proxy already refreshed once |
 //           GET ka | SET ka v | INCR kb | DEL ka | MGET ka kb kc | SET kc v | outage of m0 with a command meanwhile
-// bound     depth (quick 4, thorough 5); default schedule, fair random seed choice
+// bound     depth (quick 4, thorough 5); default schedule, fair random seed choice; x migration target owns no slots yet;
+//           x nodes announce host names (histories one level below the depth bound, and the full migration scripts)
 // oracle    no reply is a MOVED/ASK error; every reply equals the single-server reply (INCR makes a lost or
 //           duplicated execution visible); a keyed single-key command is accepted by exactly one node;
 //           errors are tolerated only after a failover whose old master is down, until a periodic refresh round completed
@@ -37,12 +38,17 @@ type c04case struct {
 	Ops []int `json:"ops"`
 	// FreshTarget: the migration target is a third master that owns no slot yet (scale-out)
 	FreshTarget bool `json:"fresh_target,omitempty"`
+	// Hostnames: the cluster announces host names (in CLUSTER NODES and in its redirections)
+	Hostnames bool `json:"hostnames,omitempty"`
 }
 
 func (c c04case) String() string {
 	var s []string
 	if c.FreshTarget {
 		s = append(s, "(migration target owns no slots)")
+	}
+	if c.Hostnames {
+		s = append(s, "(nodes announce host names)")
 	}
 	for _, o := range c.Ops {
 		s = append(s, c04ops[o])
@@ -60,7 +66,9 @@ type c04world struct {
 
 func c04setup() *c04world { return c04setupT(false) }
 
-func c04setupT(fresh bool) *c04world {
+func c04setupT(fresh bool) *c04world { return c04setupTH(fresh, false) }
+
+func c04setupTH(fresh, hostnames bool) *c04world {
 	vrand.Fair()
 	cl := cluster.New(2, 0, 2)
 	if fresh {
@@ -77,6 +85,9 @@ func c04setupT(fresh bool) *c04world {
 	w.r0 = &cluster.Node{C: cl, Idx: len(cl.Nodes), ID: "m0r0", Addr: "10.0.1.2:6379", MasterOf: w.m0}
 	w.r0.ShareStore(w.m0)
 	cl.Nodes = append(cl.Nodes, w.r0)
+	if hostnames {
+		cl.UseHostnames()
+	}
 	w.s = vfStartStack(cl, vfSvcConfig(0, nil, 0))
 	tag := cl.KeyInGroup("t", 0, 0)
 	w.ka, w.kb, w.kc = "{"+tag+"}a", "{"+tag+"}b", cl.KeyInGroup("c", 1, 0)
@@ -93,7 +104,7 @@ func isRedirectErr(v resp.Value) bool {
 
 func c04run(cs c04case) (sig, detail string) {
 	body := func() {
-		w := c04setupT(cs.FreshTarget)
+		w := c04setupTH(cs.FreshTarget, cs.Hostnames)
 		cl := w.cl
 		c := w.s.NewClient("c0")
 		n := 0
@@ -275,7 +286,8 @@ func c04histories(env sched.Env) *sched.Report {
 					rep.Complete = false
 					return
 				}
-				for _, fresh := range []bool{false, true} {
+				for variant := 0; variant < 3; variant++ {
+					fresh, hostnames := variant == 1, variant == 2
 					if fresh {
 						// the fresh-target variant only differs once a migration was started
 						started := false
@@ -286,7 +298,17 @@ func c04histories(env sched.Env) *sched.Report {
 							continue
 						}
 					}
-					cs := c04case{Ops: append([]int{}, ops...), FreshTarget: fresh}
+					if hostnames {
+						// the host-name variant only differs once something redirects; one level below the depth bound
+						redirects := false
+						for _, o := range ops {
+							redirects = redirects || o == 0 || o == 4 || o == 5 || o == 14
+						}
+						if !redirects || len(ops) >= depth {
+							continue
+						}
+					}
+					cs := c04case{Ops: append([]int{}, ops...), FreshTarget: fresh, Hostnames: hostnames}
 					sched.Progress(cs)
 					sig, detail := c04run(cs)
 					rep.Execs++
@@ -318,13 +340,15 @@ func c04histories(env sched.Env) *sched.Report {
 		if n%env.NShards != env.Shard {
 			continue
 		}
-		cs := c04case{Ops: h}
-		sig, detail := c04run(cs)
-		rep.Execs++
-		sched.Progress(nil)
-		if sig != "" && !sigs[sig] {
-			sigs[sig] = true
-			rep.Violations = append(rep.Violations, sched.CustomViolation("C04/histories", sig, detail, cs))
+		for _, hostnames := range []bool{false, true} {
+			cs := c04case{Ops: h, Hostnames: hostnames}
+			sig, detail := c04run(cs)
+			rep.Execs++
+			sched.Progress(nil)
+			if sig != "" && !sigs[sig] {
+				sigs[sig] = true
+				rep.Violations = append(rep.Violations, sched.CustomViolation("C04/histories", sig, detail, cs))
+			}
 		}
 	}
 	rep.States = rep.Execs
